@@ -23,6 +23,32 @@ class Boom(Exception):
     """what an explicit `raise` statement of a program raises"""
 
 
+class RStr(ReprObj, str):
+    """self-rendering object that also happens to be a str (unusual but legal)"""
+    def __new__(cls, s):
+        return str.__new__(cls, "plain<" + s + ">")
+
+
+class RTuple(ReprObj, tuple):
+    def __new__(cls, s):
+        return tuple.__new__(cls, (1, 2))
+
+
+class RList(ReprObj, list):
+    def __init__(self, s):
+        ReprObj.__init__(self, s)
+        list.__init__(self, ["a", "b"])
+    __hash__ = None
+
+
+class RFloat(ReprObj, float):
+    def __new__(cls, s):
+        return float.__new__(cls, 2.5)
+
+
+REPR_CLASSES = [ReprObj, RStr, ReprObj, RTuple, ReprObj, RList, RFloat]
+
+
 class Opaque:
     def __init__(self, n):
         self.n = n
@@ -61,7 +87,7 @@ class Env:
         self.n_invalid = 0
 
     # ---- realise
-    def val(self, v):
+    def val(self, v, direct=False):
         k = v[0]
         if k == "none":
             return None
@@ -74,7 +100,11 @@ class Env:
         if k == "html":
             return HTML(v[1])
         if k == "reprHtml":
-            return ReprObj(v[1])
+            self.n_repr = getattr(self, "n_repr", 0) + 1
+            # handed straight to Tag.append (no display-hook wrapper) a list/tuple/number subclass is, correctly,
+            # treated as a list/tuple/number; only there keep to classes that are nothing but self-rendering
+            classes = [ReprObj, RStr] if direct else REPR_CLASSES
+            return classes[(self.n_repr + len(v[1])) % len(classes)](v[1])
         if k == "tagRef":
             return self.tags[v[1]]
         if k == "invalid":
@@ -98,12 +128,12 @@ class Env:
         if isinstance(c, Tag):
             i = self.ids.get(id(c))
             return "ix foreign-tag" if i is None else f"ig {i}"
+        if isinstance(c, ReprObj):
+            return "ir " + es(c.s)
         if isinstance(c, HTML):
             return "ih " + es(c.as_string())
         if isinstance(c, str):
             return "it " + es(str.__str__(c))
-        if isinstance(c, ReprObj):
-            return "ir " + es(c.s)
         return "ix " + type(c).__name__
 
     def c_val(self, v) -> str:
@@ -114,14 +144,14 @@ class Env:
         if isinstance(v, Tag):
             i = self.ids.get(id(v))
             return "vx foreign-tag" if i is None else f"vg {i}"
+        if isinstance(v, ReprObj):
+            return "vr " + es(v.s)
         if isinstance(v, HTML):
             return "vh " + es(v.as_string())
         if isinstance(v, str):
             return "vt " + es(str.__str__(v))
         if isinstance(v, (bool, int, float)):
             return "vm " + es(str(v))
-        if isinstance(v, ReprObj):
-            return "vr " + es(v.s)
         if id(v) in self.invalid_ids:
             return "vi"
         return "vx " + type(v).__name__
@@ -195,7 +225,7 @@ def _hook_append(t: Toks) -> str:
     fresh = Tag("span")
     saved = sys.displayhook
     try:
-        fresh.append(env.val(v))
+        fresh.append(env.val(v, direct=True))
     finally:
         sys.displayhook = saved
     return "ok " + elist([env.c_item(c) for c in fresh.children])
